@@ -523,6 +523,10 @@ fn topologies() -> Vec<Topo> {
     ]
 }
 const DEFS: [&[(&str, u64)]; 3] = [&[("m0", 0x1024)], &[("a0", 0x1028), ("a1", 0x102c)], &[("b0", 0x1034)]];
+/// EM_386 scenarios only: `d0` is defined by the main program AND by libA. Every reference to it, from any object
+/// (including libA itself, whose own dynamic symbol table lists it as defined), names the main program's definition:
+/// the executable comes first in every symbol lookup order.
+const DEFS_DUP: [&[(&str, u64)]; 3] = [&[("m0", 0x1024), ("d0", 0x1030)], &[("a0", 0x1028), ("a1", 0x102c), ("d0", 0x1038)], &[("b0", 0x1034)]];
 
 /// odometer over `dims`
 fn for_each_index(dims: &[usize], mut f: impl FnMut(&[usize])) {
@@ -550,7 +554,9 @@ pub fn scenarios(thorough: bool) -> Vec<Scenario> {
     // ---- EM_386
     for (main_needed, a_needed, has_b) in &topologies() {
         let present: Vec<usize> = if *has_b { vec![0, 1, 2] } else { vec![0, 1] };
-        let syms: Vec<String> = present.iter().flat_map(|&i| DEFS[i].iter().map(|(n, _)| n.to_string())).collect();
+        let mut syms: Vec<String> = present.iter().flat_map(|&i| DEFS_DUP[i].iter().map(|(n, _)| n.to_string())).collect();
+        syms.sort();
+        syms.dedup();
         let mut options: Vec<Reloc> = vec![Reloc { kind: 0, sym: None }, Reloc { kind: R_RELATIVE, sym: None }];
         for k in [R_GLOB_DAT, R_JMP_SLOT, R_32] {
             for s in &syms {
@@ -573,7 +579,7 @@ pub fn scenarios(thorough: bool) -> Vec<Scenario> {
             let mut p = 0;
             for (j, &i) in present.iter().enumerate() {
                 let relocs: Vec<Reloc> = (0..slots[j]).map(|_| { p += 1; options[idx[p - 1]].clone() }).collect();
-                objs.push(Obj { name: NAMES[i].to_string(), needed: needed(i), defs: DEFS[i].iter().map(|(n, v)| (n.to_string(), *v)).collect(), relocs, got_syms: vec![] });
+                objs.push(Obj { name: NAMES[i].to_string(), needed: needed(i), defs: DEFS_DUP[i].iter().map(|(n, v)| (n.to_string(), *v)).collect(), relocs, got_syms: vec![] });
             }
             let sc = Scenario { objs, do_relocations: true, mips: None };
             last = Some(sc.clone());
